@@ -1,0 +1,94 @@
+//go:build verif
+
+package redisemu
+
+// C12: how a blocked command is ended from outside (sequential parts).
+//
+// clientState.blocked is the capture word of a connection (CS_CAPTURED while
+// a blocking command waits). unblock posts at most one message to the
+// mailbox, and only to a client it observed captured; it reports whether the
+// client was captured. The atomics are modelled as sequentially consistent
+// accesses by this one goroutine: interference of the blocked command's own
+// capture/release between two of these accesses is not modelled.
+
+//@ ghost gPosted int
+
+//@ func clientState.unblock
+//@ prop C12
+//@ safetyprop none
+//@ requires cs != nil
+//@ ghostentry gPosted = 0
+//@ ghostafter "cs.unblockCh <- unblockReason" : gPosted = gPosted + 1
+//@ modifies cs->blocked cs->unblockPending ghost.gPosted
+//@ loop 1 invariant [C12] loop: gPosted == 0 && !wasBlocked && cs.blocked == old(cs.blocked) && cs.unblockPending == old(cs.unblockPending)
+//@ ensures [C12] only.blocked: wasBlocked == (old(cs.blocked) == CS_CAPTURED)
+//@ ensures [C12] posts.only.blocked: gPosted >= 1 ==> wasBlocked
+//@ ensures [C12] one.post: gPosted <= 1 && (gPosted == 1) == (wasBlocked && old(cs.unblockPending) == 0)
+//@ ensures [C12] pending: wasBlocked ==> cs.unblockPending != 0
+//@ ensures [C12] word.restored: cs.blocked == old(cs.blocked)
+
+//@ func fnClientUnblock
+//@ prop C12
+//@ safetyprop none
+//@ requires free registry: forall k int64 :: haskey(clients, k) ==> clients[k] != nil
+//@ modifies *
+//@ ensures internal [C12] reply.missing: !exists ==> output.data == respInt(0)
+//@ ensures internal [C12] reply.blocked: exists ==> output.data == respInt(ite(old(client.blocked) == CS_CAPTURED, 1, 0))
+
+// the blocking worker: try, register, try again, only then wait; never register or wait under MULTI/EXEC
+//@ ghost gWaitRegistered bool
+//@ ghost gTries int
+//@ func blockOnListChangeWorker
+//@ prop C12 C11
+//@ mode int
+//@ safetyprop none
+//@ requires ctx != nil && ctx.dsc != nil && ctx.dsc.ds != nil && ctx.cs != nil
+//@ ghostentry gWaitRegistered = false
+//@ ghostentry gTries = 0
+//@ ghostafter "output = op()" : gTries = gTries + 1
+//@ ghostafter "ws := blockFn()" : gWaitRegistered = true
+//@ callback op
+//@ modifies *
+//@ endcallback
+//@ callback blockFn
+//@ modifies *
+//@ endcallback
+//@ callback keyNameStr
+//@ pure
+//@ endcallback
+//@ modifies *
+//@ loop 1 invariant [C12] waiting: gWaitRegistered && gTries >= 2 && !old(ctx.multi)
+//@ ensures [C12] multi.never.blocks: old(ctx.multi) ==> !gWaitRegistered && gTries == 1
+//@ ensures [C11,C12] retry.after.register: gWaitRegistered ==> gTries >= 2
+//@ ensures [C12] immediate: !gWaitRegistered ==> gTries == 1
+
+//@ func clientState.capture
+//@ trusted spins until it owns the capture word; returns the connection's mailbox
+//@ requires cs != nil
+//@ modifies cs->blocked
+
+//@ func clientState.releaseCapture
+//@ trusted drains the mailbox and gives the capture word back
+//@ requires cs != nil
+//@ modifies cs->blocked cs->unblockPending
+
+//@ func dataStore.leaveListBlock
+//@ trusted takes the store lock, removes the signal from every queue and closes its channel
+//@ requires ds != nil
+//@ modifies signalListTuple objectWaitList.queueHead objectWaitList.queueTail wakeSignal.objectsHead wakeSignal.objectsTail map
+
+//@ func time.Until
+//@ trusted
+//@ pure
+//@ func time.NewTimer
+//@ trusted
+//@ modifies alloc
+//@ func time.Timer.Stop
+//@ trusted
+//@ modifies
+//@ func time.Time.Format
+//@ trusted
+//@ pure
+//@ func time.Date
+//@ trusted
+//@ pure
